@@ -397,4 +397,137 @@ theorem fast_probe_aux (G : GenLayer) (cfg : Config) (st : State) (pgn prio src 
     rw [this]
     simp
 
+/-! ### the dump log is write-only: states that differ only in it cannot be told apart -/
+
+/-- two states a later result cannot tell apart: same reassembly table, same source map (the dump log is write-only) -/
+def Sim (s1 s2 : State) : Prop := s1.table = s2.table ∧ s1.sources = s2.sources
+
+/-- the claim computation carries the dump log along untouched -/
+theorem claimStep_dump (cfg : Config) (t : Fast.Table) (so : List (Nat × IsoName)) (d1 d2 : List OutMsg)
+    (i : Input) (m : Msg) (n : Nat) (iso : Option IsoName) :
+    claimStep cfg ⟨t, so, d2⟩ i m n iso =
+      (claimStep cfg ⟨t, so, d1⟩ i m n iso).map (fun x => ({ x.1 with dump := d2 }, x.2)) := by
+  unfold claimStep
+  split
+  · simp only
+    split
+    · split
+      · rfl
+      · cases mkIsoName m n <;> rfl
+    · cases mkIsoName m n <;> rfl
+  · rfl
+
+theorem callDecode_sim (G : GenLayer) (cfg : Config) (s1 s2 : State) (i : Input) (p : List Nat)
+    (iso : Option IsoName) (h : Sim s1 s2) :
+    (callDecode G cfg s1 i p iso).2 = (callDecode G cfg s2 i p iso).2 ∧
+      Sim (callDecode G cfg s1 i p iso).1 (callDecode G cfg s2 i p iso).1 := by
+  obtain ⟨t, so, d1⟩ := s1
+  obtain ⟨t2, so2, d2⟩ := s2
+  obtain ⟨h1, h2⟩ := h
+  simp only at h1 h2
+  subst h1 h2
+  rw [callDecode_eq, callDecode_eq]
+  cases G.decode i.pgn (leNat p) with
+  | none => exact ⟨rfl, rfl, rfl⟩
+  | some r =>
+    cases r with
+    | none => exact ⟨rfl, rfl, rfl⟩
+    | raised => exact ⟨rfl, rfl, rfl⟩
+    | ok m =>
+      simp only
+      rw [claimStep_dump cfg t so d1 d2]
+      cases claimStep cfg ⟨t, so, d1⟩ i m (leNat p % 18446744073709551616) iso with
+      | none => exact ⟨rfl, rfl, rfl⟩
+      | some r =>
+        obtain ⟨st1, iso1, stop⟩ := r
+        simp only [Option.map_some]
+        split
+        · exact ⟨rfl, rfl, rfl⟩
+        split
+        · exact ⟨rfl, rfl, rfl⟩
+        split
+        · exact ⟨rfl, rfl, rfl⟩
+        split
+        · exact ⟨rfl, rfl, rfl⟩
+        · refine ⟨rfl, ?_⟩
+          split <;> exact ⟨rfl, rfl⟩
+
+theorem Sim.refl (s : State) : Sim s s := ⟨rfl, rfl⟩
+theorem Sim.symm {s1 s2 : State} (h : Sim s1 s2) : Sim s2 s1 := ⟨h.1.symm, h.2.symm⟩
+theorem Sim.trans {s1 s2 s3 : State} (h : Sim s1 s2) (h' : Sim s2 s3) : Sim s1 s3 :=
+  ⟨h.1.trans h'.1, h.2.trans h'.2⟩
+
+theorem step_sim (G : GenLayer) (cfg : Config) (s1 s2 : State) (i : Input) (h : Sim s1 s2) :
+    (step G cfg s1 i).2 = (step G cfg s2 i).2 ∧ Sim (step G cfg s1 i).1 (step G cfg s2 i).1 := by
+  have hp : preOf cfg s1 i = preOf cfg s2 i := by rw [preOf_out, preOf_out, h.2]
+  rw [step_eq, step_eq, hp, h.1]
+  cases preOf cfg s2 i with
+  | none => exact ⟨rfl, h⟩
+  | some iso =>
+    simp only
+    cases (if i.combined then FastKind.single else G.isFast i.pgn) with
+    | raises => exact ⟨rfl, h⟩
+    | unknown => exact ⟨rfl, h⟩
+    | single => exact callDecode_sim G cfg s1 s2 i i.data iso h
+    | fast =>
+      simp only
+      generalize Fast.stepK s2.table (i.pgn, i.src, i.dst) i.data = s
+      obtain ⟨t', o⟩ := s
+      have h' : Sim { s1 with table := t' } { s2 with table := t' } := ⟨rfl, h.2⟩
+      cases o with
+      | complete payload => exact callDecode_sim G cfg _ _ i payload iso h'
+      | ignored => exact ⟨rfl, h'⟩
+      | stored => exact ⟨rfl, h'⟩
+      | error => exact ⟨rfl, h'⟩
+
+theorem run_sim (G : GenLayer) (cfg : Config) (st st' : State) (is : List Input) (hs : Sim st st') :
+    (run G cfg st is).2 = (run G cfg st' is).2 := by
+  induction is generalizing st st' with
+  | nil => rfl
+  | cons i is ih =>
+    obtain ⟨h1, h2⟩ := step_sim G cfg st st' i hs
+    rw [run_cons, run_cons, h1, ih _ _ h2]
+
+/-- keep the elements whose mask bit is `true` -/
+def pick {α : Type} : List Bool → List α → List α
+  | true :: ks, x :: xs => x :: pick ks xs
+  | false :: ks, _ :: xs => pick ks xs
+  | _, _ => []
+
+/-- every input the mask drops was, where it stood in the full history, rejected with an error or ignored (`raised` / `none`) and left
+reassembly table and source map as they were — which `C16_rejected_is_noop` shows for every single-frame or pre-assembled input that is
+filtered, unknown, undecodable or raises (anything but a decodable address claim) -/
+def DropsOk (G : GenLayer) (cfg : Config) : State → List Input → List Bool → Prop
+  | st, i :: is, k :: ks =>
+    (k = false → ((step G cfg st i).2 = .raised ∨ (step G cfg st i).2 = .none) ∧
+                 (step G cfg st i).1.table = st.table ∧ (step G cfg st i).1.sources = st.sources) ∧
+    DropsOk G cfg (step G cfg st i).1 is ks
+  | _, _, _ => True
+
+theorem garbage_removal (G : GenLayer) (cfg : Config) (st st' : State) (is : List Input) (ks : List Bool)
+    (hl : ks.length = is.length) (hs : Sim st st') (hd : DropsOk G cfg st is ks) :
+    (run G cfg st' (pick ks is)).2 = pick ks (run G cfg st is).2 := by
+  induction is generalizing st st' ks with
+  | nil =>
+    cases ks with
+    | nil => rfl
+    | cons k ks => cases k <;> rfl
+  | cons i is ih =>
+    cases ks with
+    | nil => cases hl
+    | cons k ks =>
+      have hl' : ks.length = is.length := by simpa using hl
+      obtain ⟨hk, hd'⟩ := hd
+      rw [run_cons]
+      cases k with
+      | false =>
+        obtain ⟨_, ht, hso⟩ := hk rfl
+        have h1 : Sim (step G cfg st i).1 st' := Sim.trans ⟨ht, hso⟩ hs
+        exact ih _ _ ks hl' h1 hd'
+      | true =>
+        obtain ⟨h1, h2⟩ := step_sim G cfg st st' i hs
+        show (run G cfg st' (i :: pick ks is)).2 = _
+        rw [run_cons, ← h1, ih _ _ ks hl' h2 hd']
+        rfl
+
 end N2k.Dec
